@@ -143,12 +143,15 @@ func (c *RawClient) NextID() uint32 {
 
 // Send writes one frame.
 func (c *RawClient) Send(f Frame) error {
+	// a server that stopped reading must not wedge the harness
+	c.conn.SetWriteDeadline(time.Now().Add(5 * time.Second))
 	_, err := c.conn.Write(f.Encode())
 	return err
 }
 
 // SendRaw writes arbitrary bytes.
 func (c *RawClient) SendRaw(b []byte) error {
+	c.conn.SetWriteDeadline(time.Now().Add(5 * time.Second))
 	_, err := c.conn.Write(b)
 	return err
 }
@@ -340,7 +343,14 @@ func (e *Env) Close() {
 		return
 	}
 	e.closed = true
-	e.Server.Terminate()
+	// Terminate can block for ever when an object of the server is wedged
+	// (which is what some checks are looking for): do not wedge the harness.
+	done := make(chan struct{})
+	go func() { e.Server.Terminate(); close(done) }()
+	select {
+	case <-done:
+	case <-time.After(3 * time.Second):
+	}
 	os.RemoveAll(e.Dir)
 }
 
